@@ -1,7 +1,7 @@
 #!/bin/bash
 # usage: seedcheck.sh <seed-dir with patch.diff + zz_seed_demo_test.go> <check ids...>
 # 1. confirms in a scratch worktree: patch applies, suite passes with it, demo fails with / passes without
-# 2. applies the patch to /repo, runs the listed quick checks, restores /repo
+# 2. runs the listed quick checks against that scratch worktree (VERIF_REPO), never touching /repo
 export GOFLAGS=-mod=mod GOPROXY=off GOSUMDB=off GOTOOLCHAIN=local
 D=$1; shift
 WT=/tmp/verify-$$
@@ -12,13 +12,11 @@ if ! git -C $WT apply $D/patch.diff; then echo "PATCH DOES NOT APPLY"; git -C /r
 ( cd $WT && go build -tags verif ./... && echo "builds with -tags verif: ok" )
 ( cd $WT && go test -vet=off -count=1 -skip TestSeedDemo ./... 2>&1 | tail -1 | sed 's/^/suite_with_change: /' )
 ( cd $WT && go test -vet=off -count=1 -run TestSeedDemo ./jsonschema/ >/tmp/sc.$$ 2>&1; echo "demo_with_change: $(tail -1 /tmp/sc.$$)" )
-git -C /repo worktree remove --force $WT; rm -f /tmp/sc.$$
+rm -f /tmp/sc.$$ $WT/jsonschema/zz_seed_demo_test.go
 cd /verif
-git -C /repo apply $D/patch.diff || { echo "cannot apply to /repo"; exit 2; }
 for id in "$@"; do
-  out=$(./run $id quick 2>&1)
+  out=$(VERIF_REPO=$WT ./run $id quick 2>&1)
   echo "$id: $(echo "$out" | grep -c '^VIOLATION') violation lines; $(echo "$out" | tail -1 | cut -c1-160)"
   echo "$out" | grep -A1 '^VIOLATION' | head -2 | sed 's/^/     /' | cut -c1-300
 done
-git -C /repo checkout -- .
-git -C /repo status --short
+git -C /repo worktree remove --force $WT
